@@ -193,6 +193,11 @@ def handleSym : Handler := fun st op args =>
       | .ok b => some ({ st with symBook := some b }, dumpBook b)
       | .error e => some ({ st with symBook := none }, fmtErr e)
     | _, _ => some ({ st with symBook := none }, "bad-op")
+  -- the wrapper `WithOpeningBook`: by C04.book_moves_legal the required answer is "ok" whenever a book is loaded
+  | "bookwrap", [_] =>
+    match st.symBook with
+    | none => some (st, "nobook")
+    | some _ => some (st, "ok")
   | "bookget", [ptok] =>
     match st.symBook with
     | none => some (st, "nobook")
